@@ -74,7 +74,9 @@ class Units:
                         return ("fixed", norm(e.args[0]))
                     if norm(e.args[0]) == "self.unit":
                         return ("fixed", "self.unit")
-                    return None
+                    # converted to the unit of a calculated attribute that its rule leaves in a fixed unit
+                    # (`storage_unit = self.storage_delta.unit … .to(storage_unit).magnitude`)
+                    return self.unit_named_by(e.args[0], fn, cls)
                 if f.attr in UNIT_PRESERVING:
                     return U(f.value)
                 if f.attr in ("reindex", "to_numpy", "shift", "fillna"):
@@ -158,6 +160,21 @@ class Units:
             if all(u is not None for u in us) and len({u[1] for u in us}) == 1:
                 return us[0]
             return None
+        return None
+
+    def unit_named_by(self, e, fn, cls):
+        """the fixed unit that a unit-valued expression stands for: `self.<calculated attribute>.unit` (through a local
+        alias) when the attribute's rule leaves it in a statically fixed unit; None otherwise"""
+        from ..astutil import fully_expanded
+        try:
+            x = fully_expanded(e, fn)
+        except Exception:
+            x = e
+        if isinstance(x, ast.Attribute) and x.attr in ("unit", "units") and isinstance(x.value, ast.Attribute) \
+                and isinstance(x.value.value, ast.Name) and x.value.value.id == "self" and cls is not None:
+            r = self.attr_unit(cls.name, x.value.attr)
+            if r is not None and r[1] != "self.unit":
+                return r
         return None
 
     def unit_of_rebinding(self, rv, name, fn, cls, depth):
